@@ -114,6 +114,10 @@ impl ArgValidation for Expressions {
 
     fn require_string_ref(&self, index: usize) -> Result<(), LintErrorPos> {
         match self.expr(index) {
+            // a whole array (e.g. `A$()`) is not a string
+            Expression::ArrayElement(_, args, _) if args.is_empty() => {
+                Err(LintError::ArgumentTypeMismatch.at(&self[index]))
+            }
             Expression::Variable(_, expression_type)
             | Expression::ArrayElement(_, _, expression_type)
             | Expression::Property(_, _, expression_type) => {
@@ -129,6 +133,10 @@ impl ArgValidation for Expressions {
 
     fn require_variable_of_built_in_type(&self, index: usize) -> Result<(), LintErrorPos> {
         match self.expr(index) {
+            // a whole array (e.g. `A$()`) is not a variable of a built-in type
+            Expression::ArrayElement(_, args, _) if args.is_empty() => {
+                Err(LintError::ArgumentTypeMismatch.at(&self[index]))
+            }
             Expression::Variable(_, expression_type)
             | Expression::ArrayElement(_, _, expression_type)
             | Expression::Property(_, _, expression_type) => match expression_type {
